@@ -76,7 +76,7 @@ MISSED_FIRST = {
     "C14-R2": "(added after reading the report) a value with dozens of escapes, in a long flat sentence",
     "C16-R2": "(added after reading the report) thousands of list members / extension values / extensions",
     "C17-R2": "(added after reading the report) same, as a grammar sentence",
-    "C18-R2": "NOT caught: the cost of `1 << tag_number` for a peer-chosen tag number of several identifier octets is big-integer arithmetic, which the engine does not cost-model (and replaying it would allocate gigabytes)",
+    "C18-R2": "missed at first (the engine had no cost model for big-integer arithmetic); added an engine cost obligation - a left shift by an input-chosen amount that the path condition lets exceed 2**20 bits ends the path, the witness is confirmed on the real package in a subprocess under a 1.5 GiB address-space limit - and C18 units that append an element with a six-octet tag number to every constructed value of four messages",
     "C19-M2": "duplicate registration was only tried with the same class; now a different class reusing a custom or built-in id must be rejected",
 }
 
